@@ -630,9 +630,12 @@ func drainOne(ch chan record.Record) (recs []record.Record, closed bool) {
 	}
 }
 
-func (w *world) drain() string {
+func (w *world) drain() string { return w.drainSubs(w.subs) }
+
+// drainSubs empties the feeds of the given subscriptions (all of them for `drain`, one for `drain1`).
+func (w *world) drainSubs(which []*subState) string {
 	var b strings.Builder
-	subs := append([]*subState{}, w.subs...)
+	subs := append([]*subState{}, which...)
 	sort.SliceStable(subs, func(i, j int) bool {
 		a, _ := strconv.Atoi(subs[i].sid)
 		c, _ := strconv.Atoi(subs[j].sid)
@@ -655,7 +658,7 @@ func (w *world) drain() string {
 			b.WriteByte('x')
 		}
 	}
-	if len(w.subs) == 0 {
+	if len(which) == 0 {
 		return "-"
 	}
 	return b.String()
@@ -752,6 +755,15 @@ func (w *world) Do(line string) string {
 			return "bad-op"
 		}
 		return w.drain()
+	case "drain1": // drain1 <sid>: the subscriber of one subscription reads its feed empty, the others are left alone
+		if len(f) != 2 || !isNum(f[1]) {
+			return "bad-op"
+		}
+		s := w.findSub(f[1])
+		if s == nil {
+			return "bad-op"
+		}
+		return w.drainSubs([]*subState{s})
 	case "hook": // hook <hid> <qid> <pg> <og> <pp>
 		if len(f) != 6 {
 			return "bad-op"
